@@ -28,7 +28,7 @@ CONSTANTS NKeys,      \* key universe 0..NKeys-1
                       \*            "delsub", "delsubdelb", "delbmkb", "delbput", "stale"}
           Tails,      \* subset of {"none", "delpath", "delpathmk"}: after the per-key actions of
                       \* tx2, delete the bucket under test itself (child, then ancestor) / recreate it
-          Ends,       \* subset of {"commit", "drop", "reopen"}
+          Ends,       \* subset of {"commit", "drop", "reopen", "droprerun", "dropchurn"}
           ReadBack,   \* BOOLEAN: full read API after every operation of tx2
           QKeys       \* set of keys: if non-empty, every seek / re-seek key and every pair of
                       \* range bounds over QKeys is queried mid-transaction and after commit (C08)
@@ -146,13 +146,20 @@ Behaviour(pr, ac, end, tl) ==
         \* new transaction and committed -- it must behave as if the first had never existed (C06)
         r2b == Run(r1.tree, TRUE, [i \in 1..Len(touch \o ActOps(2, ac) \o TailOps(2, tl)) |->
                                       [(touch \o ActOps(2, ac) \o TailOps(2, tl))[i] EXCEPT !.t = 4]], <<>>)
-        final == IF end = "drop" THEN r1.tree ELSE r2.tree
+        \* "dropchurn": the transaction is abandoned, then two unrelated transactions commit (a bucket of their own):
+        \* what the abandoned one had freed or allocated must not leak into them (C06)
+        CK == NKeys - 1
+        r5 == Run(r1.tree, TRUE, <<Op(5, "gocb", <<>>, CK, 0), Op(5, "put", <<CK>>, 0, 1)>>, <<>>)
+        r6 == Run(r5.tree, TRUE, <<Op(6, "gocb", <<>>, CK, 0), Op(6, "put", <<CK>>, 0, 2), Op(6, "put", <<CK>>, 1, 1)>>, <<>>)
+        final == IF end = "drop" THEN r1.tree ELSE IF end = "dropchurn" THEN r6.tree ELSE r2.tree
         r3 == Run(final, FALSE, ProjOps(3, final), <<>>)
     IN  <<Begin_(1, TRUE)>> \o r1.steps \o <<End_("commit", 1), [a |-> "check"]>>
         \o <<Begin_(2, TRUE)>> \o r2.steps \o AllQueries(2, r2.tree)
         \o (CASE end = "commit" -> <<End_("commit", 2), [a |-> "check"]>>
               [] end = "drop"   -> <<End_("drop", 2)>>
               [] end = "droprerun" -> <<End_("drop", 2), Begin_(4, TRUE)>> \o r2b.steps \o <<End_("commit", 4), [a |-> "check"]>>
+              [] end = "dropchurn" -> <<End_("drop", 2), Begin_(5, TRUE)>> \o r5.steps \o <<End_("commit", 5), [a |-> "check"],
+                                        Begin_(6, TRUE)>> \o r6.steps \o <<End_("commit", 6), [a |-> "check"]>>
               [] OTHER          -> <<End_("commit", 2), [a |-> "reopen"], [a |-> "check"]>>)
         \o <<Begin_(3, FALSE)>> \o r3.steps \o AllQueries(3, final) \o <<End_("drop", 3)>>
 
